@@ -127,6 +127,23 @@ def _post(chk, cases, bad, extra):
     # inside every type check; it raises at its n-th invocation or stops accepting a stored value
     import c04_validated
     c04_validated.explore(chk, extra, "C04")
+    # an existing instance handed over as replacement / value / element together with several
+    # keywords, the rejected one after an accepted one -- on the classes outside the model
+    import c04_replacement
+    c04_replacement.explore(chk, extra, "C04")
+
+
+def _aimed(rng, t):
+    quick = t == "quick"
+    import inst_gen as ig
+    n = 200 if quick else 4000
+    # elements with known contents; then an existing instance (a root the caller keeps) handed
+    # over as the complete replacement / nested value / element TOGETHER with >= 2 keywords, an
+    # accepted one before the rejected one: the keywords go into a copy, never into the caller's object
+    return (ig.element_cases(rng, 450 if quick else 8000)
+            + ig.replacement_cases(rng, n * 7 // 10, inplace_values=(False, False, True))
+            + ig.replacement_cases(rng, n * 3 // 20, inplace_values=(False, False, True), flavour="wide")
+            + ig.replacement_cases(rng, n * 3 // 20, inplace_values=(False, False, True), flavour="plain"))
 
 
 def _probe_replay(path):
@@ -143,7 +160,8 @@ def main(tier, replay=None):  # noqa: F811
         import c04_validated
         return c04_validated.replay("C04", replay)
     if replay:
+        import c04_replacement
+        if c04_replacement.is_replay(replay):
+            return c04_replacement.replay("C04", replay)
         return inst_check.replay("C04", replay, 16)
-    import inst_gen as ig
-    return inst_check.run("C04", tier, 16, GENS, 450, 7000, ASSUMPTIONS, post=_post,
-                          aimed=lambda rng, t: ig.element_cases(rng, 500 if t == "quick" else 8000))
+    return inst_check.run("C04", tier, 16, GENS, 450, 7000, ASSUMPTIONS, post=_post, aimed=_aimed)
